@@ -264,15 +264,18 @@ class ExcludeRegionState(object):  # pylint: disable=too-many-instance-attribute
         # after exclusion is enabled again would be based on a stale position
         xAxis = self.position.X_AXIS
         yAxis = self.position.Y_AXIS
+        exclude = False
 
+        # Process every point (even after an excluded point was found), so the tracked position
+        # always ends up at the final point of the move
         for index in range(0, len(xyPairs), 2):
             x = xAxis.setLogicalPosition(xyPairs[index])
             y = yAxis.setLogicalPosition(xyPairs[index + 1])
 
-            if (self.isPointExcluded(x, y)):
-                return True
+            if (not exclude and self.isPointExcluded(x, y)):
+                exclude = True
 
-        return False
+        return exclude
 
     def isExclusionEnabled(self):
         """Whether exclusion is currently enabled (True) or disabled (False)."""
